@@ -124,9 +124,127 @@ func c13SchedScenario(c *fw.Ctx, backend string) schedScenario {
 	return schedScenario{ID: id, Bound: fw.Pick(c, 2, 3), Run: run}
 }
 
+// P2: marks are private to a session.  An earlier session on the mailbox has logged in and QUIT
+// (whatever the server recycles from a finished session is there to be recycled); then two sessions
+// on the same mailbox are open at the same time: a marks message 1 and goes away without QUIT, b -
+// logged in before that DELE, asking after it - must still show both messages, and after b's QUIT
+// (nothing marked) and a's disappearance (never committed) the mailbox holds both.  The clients'
+// steps are ordered by hand-offs; the schedules of the server's session goroutines are explored.
+func c13SchedMarksScenario(c *fw.Ctx, backend string) schedScenario {
+	id := "P2-" + backend + "-marks-private-after-an-earlier-quit"
+	run := func(cfg vsched.Config) (res schedResult) {
+		var e *vsched.Exec
+		var mu sync.Mutex
+		bStat, bListed, final := -1, -1, -1
+		var probs [][2]string
+		leaked := inBubble(c.T, func() {
+			var s *sys.Sys
+			e = vsched.Run(cfg, func() (func(), []vsched.Thread, func()) {
+				s = sys.New(sys.Spec{Store: sys.StoreSpec{Backend: backend}, SMTP: sys.DefaultSMTP(), NoHub: true})
+				conns := map[string]*sys.Conn{}
+				aIn, bIn, aMarked := make(chan struct{}), make(chan struct{}), make(chan struct{})
+				init := func() {
+					for _, w := range []string{"one", "two"} {
+						_, _ = s.StoreH.Store.AddMessage(sys.Delivery("u", "f@x.test", []string{"u@x.test"}, w, "Subject: "+w+"\r\n\r\n"+w+"\r\n", time.Now()))
+					}
+					k := s.DialPOP3()
+					k.ReadLine()
+					for _, cmd := range []string{"USER u", "PASS p", "QUIT"} {
+						_ = k.Send(cmd)
+						k.ReadLine()
+					}
+					k.Close()
+					for _, who := range []string{"a", "b"} {
+						k := s.DialPOP3()
+						k.ReadLine()
+						_ = k.Send("USER u")
+						k.ReadLine()
+						conns[who] = k
+					}
+				}
+				ths := []vsched.Thread{
+					{Name: "client-a", F: func() {
+						k := conns["a"]
+						_ = k.Send("PASS p")
+						k.ReadLine()
+						close(aIn)
+						<-bIn
+						_ = k.Send("DELE 1")
+						k.ReadLine()
+						close(aMarked)
+						k.Close() // gone without QUIT: nothing is committed
+					}},
+					{Name: "client-b", F: func() {
+						k := conns["b"]
+						<-aIn
+						_ = k.Send("PASS p")
+						k.ReadLine()
+						close(bIn)
+						<-aMarked
+						_ = k.Send("STAT")
+						st, _ := k.ReadLine()
+						n := -1
+						fmt.Sscanf(st, "+OK %d", &n)
+						_ = k.Send("UIDL")
+						lines := 0
+						for {
+							l, ok := k.ReadLine()
+							if !ok || strings.HasPrefix(l, ".") {
+								break
+							}
+							if !strings.HasPrefix(l, "+OK") && !strings.HasPrefix(l, "-ERR") {
+								lines++
+							}
+						}
+						_ = k.Send("QUIT")
+						k.ReadLine()
+						k.Close()
+						mu.Lock()
+						bStat, bListed = n, lines
+						mu.Unlock()
+					}},
+				}
+				cleanup := func() {
+					safely(func() {
+						msgs, err := s.StoreH.Store.GetMessages("u")
+						mu.Lock()
+						defer mu.Unlock()
+						if err == nil {
+							final = len(msgs)
+						}
+						if bStat != 2 || bListed != 2 {
+							probs = append(probs, [2]string{"marks-leak-between-sessions", fmt.Sprintf("session b (logged in to a mailbox of 2, marked nothing) answers STAT %d and lists %d after ANOTHER session's DELE 1: delete marks are not private to the session", bStat, bListed)})
+						}
+						if final != 2 {
+							probs = append(probs, [2]string{"uncommitted-delete-applied", fmt.Sprintf("the mailbox holds %d message(s) after session a (DELE 1) went away without QUIT and session b (no DELE) QUIT; it held 2", final)})
+						}
+					})
+					s.Close()
+				}
+				return init, ths, cleanup
+			})
+		})
+		if leaked != "" && (e == nil || (len(e.Panics) == 0 && !e.Deadlock)) {
+			res.Infra = "bubble: " + leaked
+			return res
+		}
+		res.Exec = e
+		res.Probs = append(res.Probs, stdProbs(e)...)
+		res.Outcome = fmt.Sprintf("bstat=%d blisted=%d final=%d", bStat, bListed, final)
+		if len(res.Probs) == 0 {
+			res.Probs = append(res.Probs, probs...)
+		}
+		return res
+	}
+	return schedScenario{ID: id, Bound: fw.Pick(c, 1, 2), Run: run}
+}
+
 func c13SchedRun(c *fw.Ctx) {
 	for _, be := range []string{"mem", "file"} {
 		c.Share(2, func() { exploreSched(c, c13SchedScenario(c, be)) })
+	}
+	for _, be := range []string{"mem", "file"} {
+		c.Share(2, func() { exploreSched(c, c13SchedMarksScenario(c, be)) })
 	}
 }
 
@@ -135,6 +253,10 @@ func c13SchedReplay(c *fw.Ctx, raw json.RawMessage) {
 	_ = json.Unmarshal(raw, &cas)
 	for _, be := range []string{"mem", "file"} {
 		if sc := c13SchedScenario(c, be); sc.ID == cas.Scenario {
+			replaySched(c, sc, raw)
+			return
+		}
+		if sc := c13SchedMarksScenario(c, be); sc.ID == cas.Scenario {
 			replaySched(c, sc, raw)
 			return
 		}
